@@ -9,13 +9,6 @@
 import Torf.Lemmas.Codec
 import Torf.Spec.Sound
 
-/-- pointwise relation of two lists (core Lean 4.33 has no `List.Forall₂`; same shape as the
-    Batteries/Mathlib definition) -/
-inductive List.Forall₂.{u, v} {α : Type u} {β : Type v} (R : α → β → Prop) : List α → List β → Prop
-  | nil : List.Forall₂ R [] []
-  | cons {a : α} {b : β} {l₁ : List α} {l₂ : List β} :
-      R a b → List.Forall₂ R l₁ l₂ → List.Forall₂ R (a :: l₁) (b :: l₂)
-
 namespace Torf.Sound
 -- `Torf.Export` re-exports `BVal`/`Bytes` as abbreviations and has its own `encodeValue`/`ser`;
 -- opening it wholesale next to `Torf.Bencode`/`Torf.Codec` makes those names ambiguous
@@ -93,15 +86,6 @@ theorem encodeList_cons_ok (v : PyVal) (t : List PyVal) (l' : List BVal)
       simp only [Except.ok.injEq] at he
       exact ⟨v', t', hv, ht, he.symm⟩
 
-theorem encodeList_forall2 (l : List PyVal) (l' : List BVal) (he : Codec.encodeList l = .ok l') :
-    List.Forall₂ (fun v v' => Codec.encodeValue v = .ok v') l l' := by
-  induction l generalizing l' with
-  | nil => rw [encodeList_nil_ok l' he]; exact .nil
-  | cons v t ih =>
-    obtain ⟨v', t', hv, ht, rfl⟩ := encodeList_cons_ok v t l' he
-    exact .cons hv (ih t' ht)
-
-/-- `Forall₂`-free forms of `encodeList_forall2` -/
 theorem encodeList_length (l : List PyVal) (l' : List BVal) (he : Codec.encodeList l = .ok l') :
     l'.length = l.length := by
   induction l generalizing l' with
